@@ -677,7 +677,8 @@ def run_c17(case):
             kept = False
         return {"kept": kept, "draws_used": cas._random.pos}
     # seeded real Random: decisions of a history, twice, and of a content/outcome-varied twin
-    def decisions(runs):
+    def decisions(runs, threaded=False):
+        import threading
         spy = Spy(InMemoryTapeCassette())
         rec = TapeRecorder(spy, random_seed=case["seed"])
         out = []
@@ -685,14 +686,22 @@ def run_c17(case):
             spy.log = []
             rec.enable_recording()
             call = build_operation(Ctx(rec), run["op"], run["prm"])
-            try:
-                call()
-            except BaseException:
-                pass
+
+            def guarded(call=call):
+                try:
+                    call()
+                except BaseException:
+                    pass
+            if threaded:          # every operation of the history on a thread of its own (a server's worker threads)
+                t = threading.Thread(target=guarded)
+                t.start()
+                t.join()
+            else:
+                guarded()
             out.append("save" if any(c["c"] == "save" for c in spy.log) else "abort")
         return out
     a1, a2, b = decisions(case["runs_a"]), decisions(case["runs_a"]), decisions(case["runs_b"])
-    return {"a1": a1, "a2": a2, "b": b, "kept": a1.count("save"), "n": len(a1)}
+    return {"a1": a1, "a2": a2, "b": b, "a_threads": decisions(case["runs_a"], threaded=True), "kept": a1.count("save"), "n": len(a1)}
 
 
 def run_c04(case):     # (C04 and C05: recorder histories and racing-threads cases)
